@@ -16,7 +16,9 @@ MANIFEST_ENTRY = {
             "trees. An executable Lean model of the GLR driver itself (Model/GLR.lean: GSS, path search, limited "
             "re-reductions, revisits, shifts) is proved sound for every wf table, input and fuel (C01_glr_model_sound: "
             "a forest answer implies the input is a sentence; C01_glr_model_forest_sound: every tree of its packed "
-            "forest — one possibility per link below a root link — is a parse tree of the input; GSS invariant "
+            "forest — one possibility per link below a root link — is a parse tree of the input, and every tree taken from "
+            "the implementation's forest is looked up in the model's packed forest by the driver (forestHasTree, "
+            "C01_tree_found_in_glr_model_forest_is_parse); GSS invariant "
             "'every node reachable, every link replayable, every packed possibility locally right'; hypotheses wf "
             "and idempotent layout skipping evaluated per table and input) and is run on every input (lexical ambiguity included; inputs whose revisit sets have an order the model does not determine are flagged and left to the oracles) and must "
             "give the implementation's acceptance and exact set of packed alternatives. Per case the "
@@ -35,7 +37,8 @@ MANIFEST_ENTRY = {
 PROP = "C01"
 LEVEL = "proof"
 THEOREMS = ["C01_sentence_oracle_correct", "C01_tree_checker_correct", "C01_path_sound", "C01_accept_sound",
-            "C01_glr_model_sound", "C01_glr_model_sound_on_decoded_data", "C01_glr_model_forest_sound"]
+            "C01_glr_model_sound", "C01_glr_model_sound_on_decoded_data", "C01_glr_model_forest_sound",
+            "C01_tree_found_in_glr_model_forest_is_parse"]
 META = {
     "rule": "cases = (grammar, LALR|SLR, input incl. layout variants); grammars: exhaustive small scope + seeded "
             "random (nullable, hidden recursion, cyclic, lexical overlap at forced rates); non-trivial = sentence "
@@ -158,14 +161,26 @@ def run_unit(u):
                 b.add("input", enc_input(num, p, text))
                 qs = b.add("sentence", CHART_FUEL)
                 qd = [b.add("derives", 1, enc_tree(num, t)) for t in trees]
-                checks.append((case, impl, qs, qd, trees, b.add("glr", 4000, 1, 0), impl_glr, b.add("skipidem")))
+                qg = b.add("glr", 4000, 1, 0)
+                # every tree taken from the implementation's forest must be found in the packed forest of the
+                # model's run (hypothesis of C01_tree_found_in_glr_model_forest_is_parse)
+                qt = [b.add("glrtree", enc_tree(num, t)) for t in trees]
+                checks.append((case, impl, qs, qd, trees, qg, impl_glr, b.add("skipidem"), qt))
             out = b.run()
             st["traces"] += len(checks)
             if out[qwf] != "wf 1":
                 res["violations"].append({"kind": "table-not-wf", "case": {"grammar": gtxt, "tables": tname},
                                           "observed": out[qwf]})
-            for case, impl, qs, qd, trees, qg, impl_glr, qi in checks:
+            for case, impl, qs, qd, trees, qg, impl_glr, qi, qt in checks:
                 sent = out[qs]
+                for q, t in zip(qt, trees):
+                    if out[q] == "glrtree 1":
+                        bump(st, "impl_trees_found_in_model_forest")
+                    elif out[q] == "glrtree 0":
+                        res["disagreements"].append({"case": case, "what": "a tree of the implementation's forest is not "
+                                                     "in the packed forest of the GLR driver model",
+                                                     "impl": tree_sexp(num, t)[:300], "model": "not found"})
+                        break
                 # hypothesis of C01_glr_model_sound on this input
                 bump(st, "glr_sound_hyp_" + ("met" if out[qi] == "skipidem 1" and out[qwf] == "wf 1" else "unmet"))
                 # the GLR driver model (Model/GLR.lean): acceptance and the exact set of packed alternatives
